@@ -157,6 +157,35 @@ pub fn run(cfg: &Cfg, out: &mut Out) -> String {
                 let cb = f32::from_bits(ctx_bits);
                 out.qa(&format!("rto {ctor} {bits:08x} {ctx_bits:08x}"), &bo(lpa.resolve_to_option(cb, calc_resolver)));
                 out.qa(&format!("into_option {ctor} {bits:08x}"), &bo(dim.into_option()));
+                // implementation-side oracle for the resolution clause: "a length resolves to its number regardless of the basis, a
+                // percentage to basis times fraction (or to nothing without a basis)" — bit for bit (NaN: any NaN), through each wrapper
+                let same = |a: Option<f32>, w: Option<f32>| match (a, w) {
+                    (None, None) => true,
+                    (Some(x), Some(y)) => x.to_bits() == y.to_bits() || (x.is_nan() && y.is_nan()),
+                    _ => false,
+                };
+                let v = f32::from_bits(bits);
+                let want = if ctor == "length" { Some(v) } else { ctx.map(|bs| v * bs) };
+                for (w, got) in [("LP", lp.maybe_resolve(ctx, calc_resolver)), ("LPA", lpa.maybe_resolve(ctx, calc_resolver)), ("DIM", dim.maybe_resolve(ctx, calc_resolver))] {
+                    if !same(got, want) {
+                        out.impl_violation(format!("sig:c18-resolution {w}::{ctor}({bits:08x}).maybe_resolve({}) = {} but the property prescribes {}", bo(ctx), bo(got), bo(want)));
+                    }
+                }
+            }
+            // "no two kinds are ever confused": the percentage-only resolver answers for a percentage and for nothing else
+            {
+                let mx = unsafe { MaxTrackSizingFunction::from_raw(c) };
+                let basis = f32::from_bits(ctx_bits);
+                let got = mx.resolved_percentage_size(basis, calc_resolver);
+                let want = if ctor == "percent" { Some(f32::from_bits(bits) * basis) } else { None };
+                let ok = match (got, want) {
+                    (None, None) => true,
+                    (Some(x), Some(y)) => x.to_bits() == y.to_bits() || (x.is_nan() && y.is_nan()),
+                    _ => false,
+                };
+                if !ok {
+                    out.impl_violation(format!("sig:c18-kind-confused {ctor}({bits:08x}).resolved_percentage_size({ctx_bits:08x}) = {} but only a percentage resolves there (prescribed {})", bo(got), bo(want)));
+                }
             }
             let mx = unsafe { MaxTrackSizingFunction::from_raw(c) };
             out.qa(
@@ -193,6 +222,24 @@ pub fn run(cfg: &Cfg, out: &mut Out) -> String {
                             c.calc_value() as usize as u64,
                             flags(c)
                         ));
+                    }
+                    // a calc handle is never resolved as if it were a length / percentage: with a basis it goes through the resolver,
+                    // without one it resolves to nothing — whatever the handle's bits look like when read as a number
+                    {
+                        let lp = LengthPercentage::calc(p as usize as *const ());
+                        let lpa = LengthPercentageAuto::calc(p as usize as *const ());
+                        let dm = Dimension::calc(p as usize as *const ());
+                        let want = ctx.map(|bs| calc_resolver(p as usize as *const (), bs));
+                        for (w, got) in [("LP", lp.maybe_resolve(ctx, calc_resolver)), ("LPA", lpa.maybe_resolve(ctx, calc_resolver)), ("DIM", dm.maybe_resolve(ctx, calc_resolver))] {
+                            let ok = match (got, want) {
+                                (None, None) => true,
+                                (Some(x), Some(y)) => x.to_bits() == y.to_bits() || (x.is_nan() && y.is_nan()),
+                                _ => false,
+                            };
+                            if !ok {
+                                out.impl_violation(format!("sig:c18-calc-confused {w}::calc({p:016x}).maybe_resolve({}) = {} instead of the resolver's answer {}", bo(ctx), bo(got), bo(want)));
+                            }
+                        }
                     }
                     let dim = Dimension::calc(p as usize as *const ());
                     out.qa(&format!("resolve DIM calc {p:016x} {}", bo(ctx)), &format!("{} {}", bo(dim.maybe_resolve(ctx, calc_resolver)), b(dim.resolve_or_zero(ctx, calc_resolver))));
